@@ -387,7 +387,7 @@ func GenerateImpl(seed uint64, root string) *Module {
 		}
 		made = append(made, tname)
 		for k, s := range need {
-			variant := r.Intn(8) // 0..4 correct, 5 missing, 6 wrong type, 7 pointer depth / variadic change
+			variant := r.Intn(9) // 0..4 correct, 5 missing, 6 wrong type, 7 pointer depth / variadic change, 8 boundary between parameters and results moved
 			if s.name == "seal" {
 				if mode == 6 {
 					continue // promoted from the embedded Base
@@ -404,6 +404,15 @@ func GenerateImpl(seed uint64, root string) *Module {
 					ms.params[0] = (ms.params[0] + 1 + r.Intn(len(pool)-1)) % len(pool)
 				} else {
 					ms.results = append(append([]int{}, ms.results...), 0)
+				}
+			case 8:
+				// the same sequence of types, split at a different place: M(a) (b, c) against M(a, b) c
+				if len(ms.results) > 0 && !ms.variadic && !ms.sliceLast {
+					ms.params = append(append([]int{}, ms.params...), ms.results[0])
+					ms.results = append([]int{}, ms.results[1:]...)
+				} else if len(ms.params) > 0 && !ms.variadic && !ms.sliceLast {
+					ms.results = append([]int{ms.params[len(ms.params)-1]}, ms.results...)
+					ms.params = append([]int{}, ms.params[:len(ms.params)-1]...)
 				}
 			case 7:
 				if ms.variadic && r.Bool() {
